@@ -106,6 +106,23 @@ CHECKS["C20"] = ("model_checking",
     "unspecified corners left unconstrained: explicit port 0, bitcoind short names main/test as input, unparsable file, message texts",
     "DESIGN.md section 6 C20")
 
+CHECKS["C10"] = ("model_checking",
+    "systematic schedule exploration of real tower threads (instrumented Mutex hook, DFS with a preemption bound + random schedules) "
+    "with every execution judged by TLC: linearizability against Tower.tla's sequential action operators (Trace_Tower.tla StepConc)",
+    "Two or three operations drawn from the property's set run on real threads; every schedule at lock-acquisition / node-RPC "
+    "granularity with at most 2 (thorough 3) preemptions is executed from a common checkpoint (capped per operation set), plus random "
+    "schedules. TLC accepts an execution iff some sequential order of the requests and of the per-listener critical sections of the "
+    "chain event, run through the specification's operators, yields exactly the observed replies and final state; slot conservation, "
+    "memory = disk and no orphan records are checked on the same state.",
+    TOWER_NOTE + "; scheduling points = instrumented mutexes + node RPCs; start block / expiry echoed by add_appointment (read when the "
+    "handler starts) compared leniently; exploration is bounded (preemptions, schedules per set)",
+    "DESIGN.md section 6 C10")
+c11 = CHECKS["C11"]
+CHECKS["C11"] = (c11[0], c11[1] + "; lock-order / circular-wait search by systematic schedule exploration of real threads (conc-rig)",
+                 c11[2] + " Concurrent part: the schedule exploration of C10 reports every execution in which no thread can proceed "
+                 "(circular wait or self-deadlock), every panic on an operation thread, and hangs.",
+                 TOWER_NOTE + "; circular waits are reported only when a schedule realising them blocks the real code", c11[4])
+
 NOT_YET = {
 }
 
